@@ -758,7 +758,7 @@ class Messenger(Connection):
                         length=pkt.payload.length
                     )
                 elif msgcls == messages.TransferRefuse:
-                    self.recv_xfer_refuse(pkt.payload.transfer_id, pkt.flags)
+                    self.recv_xfer_refuse(pkt.payload.transfer_id, pkt.payload.reason)
 
                 else:
                     # Bad RX message
@@ -1308,15 +1308,19 @@ class ContactHandler(Messenger, dbus.service.Object):
             self._segment_last_ack_len = length
 
             rx_time = datetime.datetime.now(datetime.timezone.utc)
-            tx_time = self._segment_tx_times.pop(length)
-            delta_t = (rx_time - tx_time).total_seconds()
+            tx_time = self._segment_tx_times.pop(length, None)
+            if tx_time is not None:
+                delta_t = (rx_time - tx_time).total_seconds()
 
-            self._modulate_tx_seg_size(delta_b, delta_t)
+                self._modulate_tx_seg_size(delta_b, delta_t)
 
-        item = self._tx_map[transfer_id]
+        item = self._tx_map.get(transfer_id)
+        if item is None:
+            # Not one of our transfers (or already finished)
+            raise RejectError(messages.RejectMsg.Reason.UNEXPECTED)
         item.ack_length = length
         if flags & messages.TransferSegment.Flag.END:
-            if not self._do_send_ack_final:
+            if not self._do_send_ack_final or item not in self._tx_pend_ack:
                 raise RejectError(messages.RejectMsg.Reason.UNEXPECTED)
 
             self.send_bundle_finished(str(item.transfer_id), length, 'success')
@@ -1331,9 +1335,14 @@ class ContactHandler(Messenger, dbus.service.Object):
     def recv_xfer_refuse(self, transfer_id, reason):
         Messenger.recv_xfer_refuse(self, transfer_id, reason)
 
+        item = self._tx_map.pop(transfer_id, None)
+        if item is None:
+            # Not one of our transfers (or already finished)
+            raise RejectError(messages.RejectMsg.Reason.UNEXPECTED)
         self.send_bundle_finished(transfer_id, 'refused with code %s', reason)
-        item = self._tx_map.pop(transfer_id)
-        self._tx_pend_ack.remove(item)
+        self._tx_pend_ack.discard(item)
+        if item in self._tx_pend_start:
+            self._tx_pend_start.remove(item)
 
         # interrupt in-progress
         if self._tx_tmp is not None and self._tx_tmp.transfer_id == transfer_id:
